@@ -735,6 +735,24 @@ fn explicit_histories(ops: &[Op]) -> Vec<(usize, Vec<usize>)> {
             }
         }
     }
+    // histories of three operations that the depth 3 search (thorough tier) found defects with: kept in the quick tier as well
+    for (doc, names) in [
+        (0usize, vec!["set_layer_size(cur,12x6)", "scroll_area_down", "erase_row_to_start"]),
+        (1, vec!["set_layer_size(cur,12x6)", "scroll_area_down", "erase_row_to_start"]),
+        (0, vec!["set_layer_size(cur,12x6)", "scroll_area_up", "erase_row_to_start"]),
+        (0, vec!["set_layer_size(0,0x0)", "resize_buffer(true,4x2)", "make_layer_transparent"]),
+        (1, vec!["set_layer_size(0,0x0)", "resize_buffer(true,4x2)", "make_layer_transparent"]),
+        (1, vec!["set_layer_size(0,0x0)", "resize_buffer(true,4x2)", "move_layer(2,1)"]),
+        (1, vec!["set_layer_size(0,0x0)", "resize_buffer(true,4x2)", "rotate_layer"]),
+        (1, vec!["cur_layer=top", "set_layer_size(0,0x0)", "resize_buffer(true,4x2)", "make_layer_transparent"]),
+        (1, vec!["cur_layer=top", "set_layer_size(0,0x0)", "resize_buffer(true,4x2)", "move_layer(2,1)"]),
+        (1, vec!["cur_layer=top", "set_layer_size(0,0x0)", "resize_buffer(true,4x2)", "rotate_layer"]),
+        (1, vec!["cur_layer=top", "set_layer_size(0,0x0)", "resize_buffer(true,4x2)", "stamp_layer_down"]),
+        (2, vec!["cur_layer=top", "set_layer_size(0,0x0)", "resize_buffer(true,4x2)", "make_layer_transparent"]),
+        (3, vec!["cur_layer=top", "set_layer_size(0,0x0)", "resize_buffer(true,4x2)", "make_layer_transparent"]),
+    ] {
+        v.push((doc, names.iter().map(|n| id(n)).collect()));
+    }
     v
 }
 
